@@ -87,13 +87,19 @@ func (r *cfRecorder) rec(s string, o any) {
 	r.cur = append(r.cur, s)
 }
 
-func (r *cfRecorder) handler() cache.ResourceEventHandler {
-	return cache.ResourceEventHandlerFuncs{
-		AddFunc:    func(o any) { r.rec("add "+cfDesc(o), o) },
-		UpdateFunc: func(o, n any) { r.rec("update "+cfDesc(o)+" -> "+cfDesc(n), n) },
-		DeleteFunc: func(o any) { r.rec("delete "+cfDesc(o), o) },
+type cfHandler struct{ r *cfRecorder }
+
+func (h cfHandler) OnAdd(o any, isInInitialList bool) {
+	s := "add "
+	if isInInitialList {
+		s = "add(initial) "
 	}
+	h.r.rec(s+cfDesc(o), o)
 }
+func (h cfHandler) OnUpdate(o, n any) { h.r.rec("update "+cfDesc(o)+" -> "+cfDesc(n), n) }
+func (h cfHandler) OnDelete(o any)    { h.r.rec("delete "+cfDesc(o), o) }
+
+func (r *cfRecorder) handler() cache.ResourceEventHandler { return cfHandler{r} }
 
 func (r *cfRecorder) endStep() {
 	r.mu.Lock()
